@@ -36,6 +36,7 @@ import FuelVerif.Props.C05
 import FuelVerif.Props.C10
 import FuelVerif.Props.C18
 import FuelVerif.Props.C19
+import FuelVerif.Props.C19Compose
 import FuelVerif.Props.C20
 import FuelVerif.Props.C21
 import FuelVerif.Props.C23
